@@ -234,7 +234,7 @@ def gen_strategies(rng, T, thorough=False):
     cs = [rng.randint(1, min(T - 1, 3))]
     if thorough or rng.chance(0.4):
         cs.append(0)
-    if T <= 5 or thorough:
+    if T <= 5 or (thorough and T <= 14):
         cs.append(T - 1)
     out = [{"method": "checkpointed", "n": rng.choice([1, 2, T, T + 3, rng.randint(1, T)])}]
     out += [{"method": "reversible", "c": c} for c in sorted(set(cs))]
@@ -368,7 +368,7 @@ def run(ctx):
     ctx.extra["exhaustive_bounds"] = {"T_max": Tmax, "all_k": True}
     tm["bounds_s"] = round(time.time() - t1, 1)
     # (b) run_fdtd under every strategy
-    n_scenes = ctx.scale(3, 24)
+    n_scenes = ctx.scale(3, 16)
     idx = 0
     for i in range(n_scenes):
         tm[f"scene{i}_at_s"] = round(time.time() - t1, 1)
